@@ -108,7 +108,7 @@ def shrink(case, bucket):
 
 def plan(tier, seed, scale):
     K = 16
-    total = int((12000 if tier == "quick" else 300000) * scale)
+    total = int((12000 if tier == "quick" else 120000) * scale)
     return [{"name": "rand-%d" % i, "kind": "rand", "n": max(total // K, 10), "shard": i,
              "depth": 4 if tier == "quick" else 5} for i in range(K)]
 
